@@ -57,6 +57,15 @@ macro_rules
     `(tactic| simp only [$ts,*, Bool.false_eq_true, if_false, if_true, dite_false, dite_true, ↓reduceIte, ↓reduceDIte,
         Bool.not_true, Bool.not_false, Bool.true_eq_false] $[$loc]?)
 
+-- close a `Core` goal with `x`, up to rewriting of field values by hypotheses
+set_option hygiene false in
+local macro "fin " x:term : tactic =>
+  `(tactic| first
+    | exact $x
+    | (refine Core.congr $x ?_ ?_ <;> (simp [live, *]; done))
+    | (refine Core.congr $x ?_ ?_ <;> (simp [live, rb.1.err, *]; done))
+    | (refine Core.congr $x ?_ ?_ <;> (simp [live, rb.1.err, rb2.1.err, *]; done)))
+
 local macro "tr" : tactic => `(tactic| first | trivial | rfl)
 local macro "lrfl" : tactic => `(tactic| first | (simp [live]; done) | rfl)
 
@@ -384,6 +393,20 @@ theorem dblEscLoop_sim {F : Prop} {p : Nat} (cs : List (Nat × Nat)) (t u : Toke
         sif [h2] at e
         exact ih t.readByte.1 u.readByte.1 rb.1 (readByte_adv ok).ok e
 
+theorem readRawEndTag_ok (u : Tokenizer) (ok : Ok u) (h2 : 2 ≤ u.rawE) (htag : ∀ x ∈ u.rawTag, 32 ≤ x) :
+    Ok (readRawEndTag u).1 ∧ (readRawEndTag u).1.rawTag = u.rawTag ∧ (readRawEndTag u).1.buf = u.buf ∧
+    ((readRawEndTag u).2 = true →
+      (readRawEndTag u).1.rawE + 2 = u.rawE ∧ u.rawE + u.rawTag.length + 1 ≤ u.buf.size) := by
+  have hb : Adv { u with rawE := u.rawE - 2 } u :=
+    ⟨rfl, rfl, by simp, ok, rfl, rfl⟩
+  have := readRawEndTag_adv { u with rawE := u.rawE - 2 } u hb (by simp only; omega) htag
+  exact ⟨this.1.ok, this.1.rawTag, this.1.buf, this.2.2⟩
+
+theorem addRawE_sim {F : Prop} {p : Nat} {t u : Tokenizer} (k : Nat) (c : Core F p t u) :
+    Core F p (t.addRawE k) (u.addRawE k) :=
+  ⟨c.size, c.agree, c.full, c.rawS, by simp only [addRawE]; have := c.rawE; omega, c.dataS, c.dataE, c.err, c.rawTag,
+    c.cdata, c.panic, c.hang, c.utf8⟩
+
 theorem scriptGo_sim {F : Prop} {p : Nat} (st : SS) (t u : Tokenizer) (c : Core F p t u) (ok : Ok u)
     (hk : st.need ≤ u.rawE) (hs : u.rawTag = htmlScript) (e : EO F (scriptGo st u)) :
     Core F p (scriptGo st t) (scriptGo st u) := by
@@ -409,8 +432,484 @@ theorem scriptGo_sim {F : Prop} {p : Nat} (st : SS) (t u : Tokenizer) (c : Core 
            | omega
          · first | (rw [(readByte_adv ok).rawTag]; exact hs) | (rw [(read_unread_adv ok (by assumption)).rawTag]; exact hs)
          · exact e))
-  all_goals trace_state
-  all_goals sorry
+  -- read_script_data_end_tag_open / read_script_data_escaped_end_tag_open
+  case case8 | case33 =>
+    have rr := readRawEndTag_sim t _ c ok (by simpa [SS.need] using hk) (by rw [hs]; exact script_letters) e
+    conv => arg 3; rw [scriptGo]
+    sif [rr.2, rr.1.err, *]
+    first | done | exact rr.1
+  case case9 | case34 =>
+    have rr := readRawEndTag_sim t _ c ok (by simpa [SS.need] using hk) (by rw [hs]; exact script_letters)
+      (e.back (scriptGo_err _ _))
+    have ro := readRawEndTag_ok _ ok (by simpa [SS.need] using hk) (by rw [hs]; exact script_letters)
+    conv => arg 3; rw [scriptGo]
+    sif [rr.2, rr.1.err, *]
+    apply_assumption
+    · exact rr.1
+    · exact ro.1
+    · simp [SS.need]
+    · rw [ro.2.1]; exact hs
+    · exact e
+  -- read_script_data_double_escape_start
+  case case35 =>
+    have l := dblEscLoop_sim htmlDoubleEscapePat t _ c ok e
+    conv => arg 3; rw [scriptGo]
+    sif [l.2, l.1.err, *]
+    first | done | exact l.1
+  case case36 =>
+    have l := dblEscLoop_sim htmlDoubleEscapePat t _ c ok (e.back (scriptGo_err _ _))
+    have la := dblEscLoop_adv _ htmlDoubleEscapePat ok
+    conv => arg 3; rw [scriptGo]
+    sif [l.2, l.1.err, *]
+    apply_assumption
+    · exact l.1
+    · exact la.ok
+    · simp [SS.need]
+    · rw [la.rawTag]; exact hs
+    · exact e
+  case case37 =>
+    have la := dblEscLoop_adv _ htmlDoubleEscapePat ok
+    have l := dblEscLoop_sim htmlDoubleEscapePat t _ c ok (e.back (readByte_err _))
+    have rb := readByte_sim l.1 e
+    conv => arg 3; rw [scriptGo]
+    sif [l.2, l.1.err, rb.2, rb.1.err, *]
+    first | done | exact rb.1
+  case case38 =>
+    have la := dblEscLoop_adv _ htmlDoubleEscapePat ok
+    have l := dblEscLoop_sim htmlDoubleEscapePat t _ c ok (e.back (fun h => scriptGo_err _ _ (readByte_err _ h)))
+    have rb := readByte_sim l.1 (e.back (scriptGo_err _ _))
+    conv => arg 3; rw [scriptGo]
+    sif [l.2, l.1.err, rb.2, rb.1.err, *]
+    apply_assumption
+    · exact rb.1
+    · exact (readByte_adv la.ok).ok
+    · simp [SS.need]
+    · rw [(readByte_adv la.ok).rawTag, la.rawTag]; exact hs
+    · exact e
+  case case39 =>
+    have la := dblEscLoop_adv _ htmlDoubleEscapePat ok
+    have l := dblEscLoop_sim htmlDoubleEscapePat t _ c ok
+      (e.back (fun h => scriptGo_err _ _ (by simp only [unread_err]; exact readByte_err _ h)))
+    have rb := readByte_sim l.1 (e.back (fun h => scriptGo_err _ _ (by simp only [unread_err]; exact h)))
+    conv => arg 3; rw [scriptGo]
+    sif [l.2, l.1.err, rb.2, rb.1.err, *]
+    apply_assumption
+    · exact unread_sim 1 rb.1 (readByte_pos (by assumption))
+    · exact (read_unread_adv la.ok (by assumption)).ok
+    · simp [SS.need]
+    · rw [(read_unread_adv la.ok (by assumption)).rawTag, la.rawTag]; exact hs
+    · exact e
+  -- read_script_data_double_escaped_end
+  case case57 =>
+    have rr := readRawEndTag_sim t _ c ok (by simpa [SS.need] using hk) (by rw [hs]; exact script_letters) e
+    conv => arg 3; rw [scriptGo]
+    sif [rr.2, rr.1.err, *]
+    first | done | exact rr.1
+  case case58 =>
+    have rr := readRawEndTag_sim t _ c ok (by simpa [SS.need] using hk) (by rw [hs]; exact script_letters)
+      (e.back (scriptGo_err _ _))
+    have ro := readRawEndTag_ok _ ok (by simpa [SS.need] using hk) (by rw [hs]; exact script_letters)
+    conv => arg 3; rw [scriptGo]
+    sif [rr.2, rr.1.err, *]
+    apply_assumption
+    · exact rr.1
+    · exact ro.1
+    · simp [SS.need]
+    · rw [ro.2.1]; exact hs
+    · exact e
+  case case56 =>
+    rename_i u _ htrue ih
+    have rr := readRawEndTag_sim t u c ok (by simpa [SS.need] using hk) (by rw [hs]; exact script_letters)
+      (e.back (fun h => scriptGo_err _ _ (by simpa using h)))
+    have ro := readRawEndTag_ok u ok (by simpa [SS.need] using hk) (by rw [hs]; exact script_letters)
+    conv => arg 3; rw [scriptGo]
+    sif [rr.2, rr.1.err, htrue]
+    have hlen : u.rawTag.length = 6 := by rw [hs]; rfl
+    have h3 := ro.2.2.2 htrue
+    refine ih _ (addRawE_sim _ rr.1) ⟨?_, ro.1.panic, ro.1.hang, ro.1.utf8⟩ (by simp [SS.need]) (by
+      show u.readRawEndTag.1.rawTag = htmlScript; rw [ro.2.1]; exact hs) e
+    show u.readRawEndTag.1.rawE + htmlScriptEndTagLen ≤ u.readRawEndTag.1.buf.size
+    rw [ro.2.2.1]
+    simp only [htmlScriptEndTagLen]
+    omega
+
+theorem rawTextGo_sim {F : Prop} {p : Nat} (t u : Tokenizer) (c : Core F p t u) (ok : Ok u)
+    (htag : ∀ x ∈ u.rawTag, 32 ≤ x) (e : EO F (rawTextGo u)) : Core F p (rawTextGo t) (rawTextGo u) := by
+  fun_induction rawTextGo u generalizing t
+  all_goals (try simp +zetaDelta only at *)
+  case case1 =>
+    have rb := readByte_sim c e
+    conv => arg 3; rw [rawTextGo]
+    sif [rb.1.err, rb.2, *]
+    first | done | exact rb.1
+  case case2 ih =>
+    have rb := readByte_sim c (e.back (rawTextGo_err _))
+    have a1 := readByte_adv ok
+    conv => arg 3; rw [rawTextGo]
+    sif [rb.1.err, rb.2, *]
+    exact ih _ rb.1 a1.ok (by rw [a1.rawTag]; exact htag) e
+  case case3 =>
+    have rb := readByte_sim c (e.back (readByte_err _))
+    have rb2 := readByte_sim rb.1 e
+    conv => arg 3; rw [rawTextGo]
+    sif [rb.1.err, rb.2, rb2.1.err, rb2.2, *]
+    first | done | exact rb2.1
+  case case4 ih =>
+    have a1 := readByte_adv ok
+    have a2 := readByte_adv a1.ok
+    have rb := readByte_sim c (e.back (fun h => rawTextGo_err _ (readByte_err _ h)))
+    have rb2 := readByte_sim rb.1 (e.back (rawTextGo_err _))
+    conv => arg 3; rw [rawTextGo]
+    sif [rb.1.err, rb.2, rb2.1.err, rb2.2, *]
+    exact ih _ rb2.1 a2.ok (by rw [a2.rawTag, a1.rawTag]; exact htag) e
+  case case5 u _ herr _ _ herr2 _ _ _ =>
+    have a1 := readByte_adv ok
+    have a2 := readByte_adv a1.ok
+    have e1 := readByte_succ herr
+    have e2 := readByte_succ herr2
+    have rb := readByte_sim c (e.back (fun h => readRawEndTag_err _ (readByte_err _ h)))
+    have rb2 := readByte_sim rb.1 (e.back (readRawEndTag_err _))
+    have rr := readRawEndTag_sim _ _ rb2.1 a2.ok (by omega) (by rw [a2.rawTag, a1.rawTag]; exact htag) e
+    conv => arg 3; rw [rawTextGo]
+    sif [rb.1.err, rb.2, rb2.1.err, rb2.2, rr.2, rr.1.err, *]
+    first | done | exact rr.1
+  case case6 u _ herr _ _ herr2 _ _ _ ih =>
+    have a1 := readByte_adv ok
+    have a2 := readByte_adv a1.ok
+    have e1 := readByte_succ herr
+    have e2 := readByte_succ herr2
+    have htag2 : ∀ x ∈ u.readByte.1.readByte.1.rawTag, 32 ≤ x := by rw [a2.rawTag, a1.rawTag]; exact htag
+    have rb := readByte_sim c (e.back (fun h => rawTextGo_err _ (readRawEndTag_err _ (readByte_err _ h))))
+    have rb2 := readByte_sim rb.1 (e.back (fun h => rawTextGo_err _ (readRawEndTag_err _ h)))
+    have rr := readRawEndTag_sim _ _ rb2.1 a2.ok (by omega) htag2 (e.back (rawTextGo_err _))
+    have ro := readRawEndTag_ok _ a2.ok (by omega) htag2
+    conv => arg 3; rw [rawTextGo]
+    sif [rb.1.err, rb.2, rb2.1.err, rb2.2, rr.2, rr.1.err, *]
+    exact ih _ rr.1 ro.1 (by rw [ro.2.1]; exact htag2) e
+
+theorem readToEnd_sim {F : Prop} {p : Nat} (t u : Tokenizer) (c : Core F p t u) (e : EO F (readToEnd u)) :
+    Core F p (readToEnd t) (readToEnd u) := by
+  fun_induction readToEnd u generalizing t
+  all_goals (try simp +zetaDelta only at *)
+  case case1 herr =>
+    conv => arg 3; rw [readToEnd]
+    sif [c.err, herr]
+    exact c
+  case case2 herr _ herr2 =>
+    have rb := readByte_sim c e
+    conv => arg 3; rw [readToEnd]
+    sif [c.err, herr, rb.1.err, herr2]
+    exact rb.1
+  case case3 herr _ herr2 ih =>
+    have rb := readByte_sim c (e.back (readToEnd_err' _))
+    conv => arg 3; rw [readToEnd]
+    sif [c.err, herr, rb.1.err, herr2]
+    exact ih _ rb.1 e
+
+/-! ### comments and declarations -/
+
+theorem Core.dataS_rawE {F : Prop} {p : Nat} {t u : Tokenizer} (c : Core F p t u) :
+    Core F p { t with dataS := t.rawE } { u with dataS := u.rawE } :=
+  ⟨c.size, c.agree, c.full, c.rawS, c.rawE, c.rawE, c.dataE, c.err, c.rawTag, c.cdata, c.panic, c.hang, c.utf8⟩
+
+theorem Core.dataE_rawE {F : Prop} {p : Nat} {t u : Tokenizer} (c : Core F p t u) :
+    Core F p { t with dataE := t.rawE } { u with dataE := u.rawE } :=
+  ⟨c.size, c.agree, c.full, c.rawS, c.rawE, c.dataS, c.rawE, c.err, c.rawTag, c.cdata, c.panic, c.hang, c.utf8⟩
+
+theorem untilCloseAngleGo_sim {F : Prop} {p : Nat} (t u : Tokenizer) (c : Core F p t u) (ok : Ok u)
+    (e : EO F (untilCloseAngleGo u)) : Core F p (untilCloseAngleGo t) (untilCloseAngleGo u) := by
+  fun_induction untilCloseAngleGo u generalizing t
+  all_goals (try simp +zetaDelta only at *)
+  case case1 =>
+    have rb := readByte_sim c e
+    conv => arg 3; rw [untilCloseAngleGo]
+    sif [rb.1.err, rb.2, *]
+    fin rb.1.dataE_rawE
+  case case2 herr _ =>
+    have rb := readByte_sim c (by have := e; simp only [EO, setDataEndBack_err] at this; exact this)
+    conv => arg 3; rw [untilCloseAngleGo]
+    sif [rb.1.err, rb.2, *]
+    exact setDataEndBack_sim 1 rb.1 (readByte_pos herr)
+  case case3 ih =>
+    have rb := readByte_sim c (e.back (untilCloseAngleGo_err _))
+    conv => arg 3; rw [untilCloseAngleGo]
+    sif [rb.1.err, rb.2, *]
+    exact ih _ rb.1 (readByte_adv ok).ok e
+
+theorem readUntilCloseAngle_sim {F : Prop} {p : Nat} (t u : Tokenizer) (c : Core F p t u) (ok : Ok u)
+    (e : EO F (readUntilCloseAngle u)) : Core F p (readUntilCloseAngle t) (readUntilCloseAngle u) := by
+  unfold readUntilCloseAngle at e ⊢
+  exact untilCloseAngleGo_sim _ _ c.dataS_rawE ⟨ok.le, ok.panic, ok.hang, ok.utf8⟩ e
+
+theorem commentGo_sim {F : Prop} {p : Nat} (t u : Tokenizer) (d : Nat) (c : Core F p t u) (ok : Ok u)
+    (h3 : 3 ≤ u.rawE) (e : EO F (commentGo u d)) : Core F p (commentGo t d) (commentGo u d) := by
+  fun_induction commentGo u d generalizing t
+  all_goals (try simp +zetaDelta only at *)
+  case case1 =>
+    have rb := readByte_sim c (by have := e; simp only [EO, setDataEndBack_err] at this; exact this)
+    have := (readByte_adv ok).mono
+    conv => arg 3; rw [commentGo]
+    sif [rb.1.err, rb.2, *]
+    exact setDataEndBack_sim _ rb.1 (by split <;> omega)
+  case case2 ih =>
+    have rb := readByte_sim c (e.back (commentGo_err _ _))
+    have := (readByte_adv ok).mono
+    conv => arg 3; rw [commentGo]
+    sif [rb.1.err, rb.2, *]
+    exact ih _ rb.1 (readByte_adv ok).ok (by omega) e
+  case case3 =>
+    have rb := readByte_sim c (by have := e; simp only [EO, setDataEndBack_err] at this; exact this)
+    have := (readByte_adv ok).mono
+    conv => arg 3; rw [commentGo]
+    sif [rb.1.err, rb.2, *]
+    exact setDataEndBack_sim _ rb.1 (by simp only [htmlCommentEndLen]; omega)
+  case case4 ih =>
+    have rb := readByte_sim c (e.back (commentGo_err _ _))
+    have := (readByte_adv ok).mono
+    conv => arg 3; rw [commentGo]
+    sif [rb.1.err, rb.2, *]
+    exact ih _ rb.1 (readByte_adv ok).ok (by omega) e
+  case case5 =>
+    have rb := readByte_sim c (e.back (readByte_err _))
+    have rb2 := readByte_sim rb.1 e
+    conv => arg 3; rw [commentGo]
+    sif [rb.1.err, rb.2, rb2.1.err, rb2.2, *]
+    fin rb2.1.dataE_rawE
+  case case6 =>
+    have rb := readByte_sim c (e.back (fun h => by simp only [setDataEndBack_err]; exact readByte_err _ h))
+    have rb2 := readByte_sim rb.1 (by have := e; simp only [EO, setDataEndBack_err] at this; exact this)
+    have := (readByte_adv ok).mono
+    have := (readByte_adv (readByte_adv ok).ok).mono
+    have := readByte_succ (t := _) (by assumption : ¬ (readByte (readByte _).1).1.err = true)
+    conv => arg 3; rw [commentGo]
+    sif [rb.1.err, rb.2, rb2.1.err, rb2.2, *]
+    exact setDataEndBack_sim _ rb2.1 (by simp only [htmlCommentBangEndLen]; omega)
+  case case7 ih =>
+    have a1 := readByte_adv ok
+    have a2 := readByte_adv a1.ok
+    have rb := readByte_sim c (e.back (fun h => commentGo_err _ _ (readByte_err _ h)))
+    have rb2 := readByte_sim rb.1 (e.back (commentGo_err _ _))
+    conv => arg 3; rw [commentGo]
+    sif [rb.1.err, rb.2, rb2.1.err, rb2.2, *]
+    exact ih _ rb2.1 a2.ok (by have := a1.mono; have := a2.mono; omega) e
+  case case8 ih =>
+    have rb := readByte_sim c (e.back (commentGo_err _ _))
+    have := (readByte_adv ok).mono
+    conv => arg 3; rw [commentGo]
+    sif [rb.1.err, rb.2, *]
+    exact ih _ rb.1 (readByte_adv ok).ok (by omega) e
+  case case9 ih =>
+    have rb := readByte_sim c (e.back (commentGo_err _ _))
+    have := (readByte_adv ok).mono
+    conv => arg 3; rw [commentGo]
+    sif [rb.1.err, rb.2, *]
+    exact ih _ rb.1 (readByte_adv ok).ok (by omega) e
+
+theorem readComment_sim {F : Prop} {p : Nat} (t u : Tokenizer) (c : Core F p t u) (ok : Ok u) (h3 : 3 ≤ u.rawE)
+    (e : EO F (readComment u)) : Core F p (readComment t) (readComment u) := by
+  have e' : EO F (commentGo { u with dataS := u.rawE } 2) := e.back (fun h => by
+    unfold readComment; simp only; split <;> simpa using h)
+  have g := commentGo_sim _ _ 2 c.dataS_rawE ⟨ok.le, ok.panic, ok.hang, ok.utf8⟩ h3 e'
+  unfold readComment
+  simp only
+  generalize commentGo { t with dataS := t.rawE } 2 = t1 at *
+  generalize commentGo { u with dataS := u.rawE } 2 = u1 at *
+  have hc : (t1.dataE < t1.dataS) ↔ (u1.dataE < u1.dataS) := by rw [g.dataE, g.dataS]; omega
+  by_cases h : u1.dataE < u1.dataS
+  · sif [h, hc.mpr h]
+    exact ⟨g.size, g.agree, g.full, g.rawS, g.rawE, g.dataS, g.dataS, g.err, g.rawTag, g.cdata, g.panic, g.hang, g.utf8⟩
+  · have h' : ¬ t1.dataE < t1.dataS := fun x => h (hc.mp x)
+    sif [h, h']
+    exact g
+
+theorem declLoop_sim {F : Prop} {p : Nat} (cs : List (Nat × Nat)) (t u : Tokenizer) (c : Core F p t u)
+    (e : EO F (declLoop u cs).1) :
+    Core F p (declLoop t cs).1 (declLoop u cs).1 ∧ (declLoop t cs).2 = (declLoop u cs).2 := by
+  induction cs generalizing t u with
+  | nil => exact ⟨c, rfl⟩
+  | cons x cs ih =>
+    obtain ⟨x, x'⟩ := x
+    have rb := readByte_sim c (e.back (fun h => by simp [declLoop, h]))
+    simp only [declLoop, rb.1.err, rb.2] at e ⊢
+    by_cases h1 : u.readByte.1.err = true
+    · sif [h1]; exact ⟨rb.1.dataE_rawE, by tr⟩
+    · sif [h1] at e ⊢
+      split
+      · refine ⟨?_, by tr⟩
+        exact ⟨rb.1.size, rb.1.agree, rb.1.full, rb.1.rawS, rb.1.dataS, rb.1.dataS, rb.1.dataE, rb.1.err, rb.1.rawTag,
+          rb.1.cdata, rb.1.panic, rb.1.hang, rb.1.utf8⟩
+      · rename_i h2
+        sif [h2] at e
+        exact ih t.readByte.1 u.readByte.1 rb.1 e
+
+theorem declLoop_ok (b u : Tokenizer) (cs : List (Nat × Nat)) (hb : Adv b u) (hd : u.dataS = b.rawE) :
+    Ok (declLoop u cs).1 ∧ b.rawE ≤ (declLoop u cs).1.rawE ∧ (declLoop u cs).1.dataS = b.rawE :=
+  let h := declLoop_adv b u cs hb hd
+  ⟨h.1.ok, h.1.mono, h.2.1.trans hd⟩
+
+theorem readDocType_sim {F : Prop} {p : Nat} (b t u : Tokenizer) (c : Core F p t u) (hb : Adv b u)
+    (hd : u.dataS = b.rawE) (e : EO F (readDocType u).1) :
+    Core F p (readDocType t).1 (readDocType u).1 ∧ (readDocType t).2 = (readDocType u).2 := by
+  have el : EO F (declLoop u htmlDoctypePat).1 := e.back (fun h => by
+    have h2 := skipWhiteSpace_err _ h
+    have h3 := readUntilCloseAngle_err _ h2
+    unfold readDocType; simp only; (repeat' split) <;> simp_all)
+  have l := declLoop_sim htmlDoctypePat t u c el
+  have lo := declLoop_ok b u htmlDoctypePat hb hd
+  unfold readDocType at e ⊢
+  simp only [l.2] at e ⊢
+  generalize declLoop t htmlDoctypePat = lt at *
+  generalize declLoop u htmlDoctypePat = lu at *
+  by_cases hl : lu.2 = true
+  · sif [hl] at e ⊢
+    have es : EO F lu.1.skipWhiteSpace := e.back (fun h => by
+      have h3 := readUntilCloseAngle_err _ h
+      split <;> simp_all)
+    have sk := skipWhiteSpace_sim _ _ l.1 lo.1 es
+    have ska := skipWhiteSpace_adv _ lo.1
+    rw [sk.err]
+    by_cases h2 : lu.1.skipWhiteSpace.err = true
+    · sif [h2]
+      refine ⟨?_, by tr⟩
+      exact ⟨sk.size, sk.agree, sk.full, sk.rawS, sk.rawE, sk.rawE, sk.rawE, sk.err, sk.rawTag, sk.cdata, sk.panic,
+        sk.hang, sk.utf8⟩
+    · sif [h2] at e ⊢
+      exact ⟨readUntilCloseAngle_sim _ _ sk ska.ok e, by tr⟩
+  · have hl' : lu.2 = false := by simpa using hl
+    sif [hl']
+    exact ⟨l.1, by tr⟩
+
+theorem cdataGo_sim {F : Prop} {p : Nat} (t u : Tokenizer) (br : Nat) (c : Core F p t u) (ok : Ok u)
+    (h2 : 2 ≤ u.rawE) (e : EO F (cdataGo u br)) : Core F p (cdataGo t br) (cdataGo u br) := by
+  fun_induction cdataGo u br generalizing t
+  all_goals (try simp +zetaDelta only at *)
+  case case1 =>
+    have rb := readByte_sim c e
+    conv => arg 3; rw [cdataGo]
+    sif [rb.1.err, rb.2, *]
+    fin rb.1.dataE_rawE
+  case case2 ih =>
+    have rb := readByte_sim c (e.back (cdataGo_err _ _))
+    have := (readByte_adv ok).mono
+    conv => arg 3; rw [cdataGo]
+    sif [rb.1.err, rb.2, *]
+    exact ih _ rb.1 (readByte_adv ok).ok (by omega) e
+  case case3 herr _ _ _ =>
+    have rb := readByte_sim c (by have := e; simp only [EO, setDataEndBack_err] at this; exact this)
+    have := readByte_succ herr
+    conv => arg 3; rw [cdataGo]
+    sif [rb.1.err, rb.2, *]
+    exact setDataEndBack_sim _ rb.1 (by simp only [htmlCdataEndLen]; omega)
+  case case4 ih =>
+    have rb := readByte_sim c (e.back (cdataGo_err _ _))
+    have := (readByte_adv ok).mono
+    conv => arg 3; rw [cdataGo]
+    sif [rb.1.err, rb.2, *]
+    exact ih _ rb.1 (readByte_adv ok).ok (by omega) e
+  case case5 ih =>
+    have rb := readByte_sim c (e.back (cdataGo_err _ _))
+    have := (readByte_adv ok).mono
+    conv => arg 3; rw [cdataGo]
+    sif [rb.1.err, rb.2, *]
+    exact ih _ rb.1 (readByte_adv ok).ok (by omega) e
+
+theorem readCdata_sim {F : Prop} {p : Nat} (b t u : Tokenizer) (c : Core F p t u) (hb : Adv b u)
+    (hd : u.dataS = b.rawE) (h2 : 2 ≤ b.rawE) (e : EO F (readCdata u).1) :
+    Core F p (readCdata t).1 (readCdata u).1 ∧ (readCdata t).2 = (readCdata u).2 := by
+  have el : EO F (declLoop u htmlCdataPat).1 := e.back (fun h => by
+    have h2 := cdataGo_err { (declLoop u htmlCdataPat).1 with dataS := (declLoop u htmlCdataPat).1.rawE } 0 h
+    unfold readCdata; simp only; split <;> simp_all)
+  have l := declLoop_sim htmlCdataPat t u c el
+  have lo := declLoop_ok b u htmlCdataPat hb hd
+  unfold readCdata at e ⊢
+  simp only [l.2] at e ⊢
+  generalize declLoop t htmlCdataPat = lt at *
+  generalize declLoop u htmlCdataPat = lu at *
+  by_cases hl : lu.2 = true
+  · sif [hl] at e ⊢
+    exact ⟨cdataGo_sim _ _ 0 l.1.dataS_rawE ⟨lo.1.le, lo.1.panic, lo.1.hang, lo.1.utf8⟩ (by simp only; omega) e, by tr⟩
+  · have hl' : lu.2 = false := by simpa using hl
+    sif [hl']
+    exact ⟨l.1, by tr⟩
+
+theorem markupRest_sim {F : Prop} {p : Nat} (b t u : Tokenizer) (c : Core F p t u) (hb : Adv b u)
+    (hd : u.dataS = b.rawE) (h2 : 2 ≤ b.rawE) (e : EO F (markupRest u).1) :
+    Core F p (markupRest t).1 (markupRest u).1 ∧ (markupRest t).2 = (markupRest u).2 := by
+  have ed : EO F (readDocType u).1 := e.back (fun h => by
+    have h2 := readCdata_err _ h
+    have h3 := readUntilCloseAngle_err _ h2
+    have h4 := readUntilCloseAngle_err _ h
+    unfold markupRest; simp only; (repeat' split) <;> simp_all)
+  have d := readDocType_sim b t u c hb hd ed
+  have da := readDocType_adv b u hb hd
+  unfold markupRest at e ⊢
+  simp only [d.2, d.1.cdata] at e ⊢
+  generalize readDocType t = dt at *
+  generalize readDocType u = du at *
+  by_cases h1 : du.2 = true
+  · sif [h1]; exact ⟨d.1, by tr⟩
+  · sif [h1] at e ⊢
+    have hdf := da.2 (by simpa using h1)
+    by_cases h3 : du.1.allowCdata = true
+    · sif [h3] at e ⊢
+      have ec : EO F (readCdata du.1).1 := e.back (fun h => by
+        have h4 := readUntilCloseAngle_err _ h
+        split <;> simp_all)
+      have cc := readCdata_sim b _ _ d.1 da.1 hdf h2 ec
+      have ca := readCdata_adv b _ da.1 hdf h2
+      simp only [cc.2] at e ⊢
+      generalize readCdata dt.1 = ct at *
+      generalize readCdata du.1 = cu at *
+      by_cases h4 : cu.2 = true
+      · sif [h4]
+        exact ⟨cc.1.congr (by lrfl) (by lrfl), by tr⟩
+      · sif [h4] at e ⊢
+        exact ⟨readUntilCloseAngle_sim _ _ cc.1 ca.ok e, by tr⟩
+    · sif [h3] at e ⊢
+      exact ⟨readUntilCloseAngle_sim _ _ d.1 da.1.ok e, by tr⟩
+
+theorem markupGo_sim {F : Prop} {p : Nat} (t u : Tokenizer) (c : Core F p t u) (ok : Ok u) (h2 : 2 ≤ u.rawE)
+    (hd : u.dataS = u.rawE) (e : EO F (markupGo u).1) :
+    Core F p (markupGo t).1 (markupGo u).1 ∧ (markupGo t).2 = (markupGo u).2 := by
+  have a1 := readByte_adv ok
+  have a2 := readByte_adv a1.ok
+  have e1 : EO F u.readByte.1 := e.back (fun h => by
+    have h2 := readByte_err _ h
+    have h3 := readComment_err _ h2
+    have h4 := markupRest_err (u.readByte.1.readByte.1.unread 2) (by simpa using h2)
+    unfold markupGo; simp only; (repeat' split) <;> simp_all)
+  have rb := readByte_sim c e1
+  unfold markupGo at e ⊢
+  simp only [rb.1.err, rb.2] at e ⊢
+  by_cases h1 : u.readByte.1.err = true
+  · sif [h1]; exact ⟨rb.1.dataE_rawE, by tr⟩
+  · sif [h1] at e ⊢
+    have e2 : EO F u.readByte.1.readByte.1 := e.back (fun h => by
+      have h3 := readComment_err _ h
+      have h4 := markupRest_err (u.readByte.1.readByte.1.unread 2) (by simpa using h)
+      (repeat' split) <;> simp_all)
+    have rb2 := readByte_sim rb.1 e2
+    simp only [rb2.1.err, rb2.2] at e ⊢
+    by_cases h3 : u.readByte.1.readByte.1.err = true
+    · sif [h3]; exact ⟨rb2.1.dataE_rawE, by tr⟩
+    · sif [h3] at e ⊢
+      have s1 := readByte_succ h1
+      have s2 := readByte_succ h3
+      split
+      · rename_i h4
+        sif [h4] at e
+        exact ⟨readComment_sim _ _ rb2.1 a2.ok (by omega) e, by tr⟩
+      · rename_i h4
+        sif [h4] at e
+        exact markupRest_sim u _ _ (unread_sim 2 rb2.1 (by omega)) (unread_adv 2 (a1.trans a2) (by omega))
+          (by simp [hd]) h2 e
+
+theorem readMarkupDeclaration_sim {F : Prop} {p : Nat} (t u : Tokenizer) (c : Core F p t u) (ok : Ok u)
+    (h2 : 2 ≤ u.rawE) (e : EO F (readMarkupDeclaration u).1) :
+    Core F p (readMarkupDeclaration t).1 (readMarkupDeclaration u).1 ∧
+    (readMarkupDeclaration t).2 = (readMarkupDeclaration u).2 := by
+  unfold readMarkupDeclaration at e ⊢
+  exact markupGo_sim _ _ c.dataS_rawE ⟨ok.le, ok.panic, ok.hang, ok.utf8⟩ h2 rfl e
 
 end Tokenizer
 end Rio.Html
